@@ -6,7 +6,7 @@
 (*  - fixed-input mode (Gen = FALSE): the input is the constant Input.      *)
 EXTENDS Decoder, SmilesReader, Json
 
-(* From DecParams: Gen, Alphabet, MaxLen, Input, and FirstSyms / AllowEmpty *)
+(* From DecParams: Gen, Alphabet, MaxLen, Input, and FirstSyms / SecondSyms / AllowEmpty *)
 (* (the partition of the input space over parallel TLC processes).          *)
 
 VARIABLE d
@@ -16,6 +16,7 @@ Init == d = IF Gen THEN InitState(<<>>, FALSE) ELSE InitState(Input, TRUE)
 
 Supply(s) == /\ Gen /\ Kind(d) = "wait" /\ Len(d.inp) < MaxLen
              /\ (Len(d.inp) = 0 => s \in FirstSyms)
+             /\ (Len(d.inp) = 1 => s \in SecondSyms)
              /\ d' = [d EXCEPT !.inp = Append(@, s)]
 Close     == /\ Gen /\ Kind(d) = "wait" /\ (Len(d.inp) = 0 => AllowEmpty)
              /\ d' = [d EXCEPT !.closed = TRUE]
